@@ -1,7 +1,8 @@
 (* Evaluator of the "enumprog" engine (translator tie for the generated enum types and the per-file type tables, Model/EnumProg.v).
-     ENUMPROG   set file spec var info full = (enum …) | none    model: canon_enum (spec, var, [info]) full, printed
-     ENUMMSG    set file spec var full      = (msg VAR s r) | none   model: canon_msg
-     ENUMTABLES set file spec               = E M                model: enum_table_len, msg_table_len
+     @ENUMFILE  set file spec          = ok                     context line: the declaration tree of the file (remembered; file-level laws)
+     ENUMPROG   set file var info full = (enum …) | none        model: canon_enum (spec, var, [info]) full, printed
+     ENUMMSG    set file var full      = (msg VAR s r) | none   model: canon_msg
+     ENUMTABLES set file               = E M                    model: enum_table_len, msg_table_len
    Text form (the Go printer in harness/cmd/runner/enumprog.go writes the same):
      (enum T (consts (c NAME NUM)…) (names (n NUM NAME)…) (values (v NAME NUM)…) (methods M…))
      M = (Enum T) (String T) (Descriptor T VAR N) (Type T VAR N) (Number T) (EnumDescriptor T VAR i…)
@@ -65,17 +66,24 @@ let prog_s (p : eprog) : string =
 
 let nodup (l : 'a list) : bool = List.length (List.sort_uniq compare l) = List.length l
 
+let file_tbl : (string * string, dfile) Hashtbl.t = Hashtbl.create 64
+let file_of set file = try Hashtbl.find file_tbl (set, file) with Not_found -> failwith ("enumprog: no @ENUMFILE line for " ^ set ^ " " ^ file)
+
 let enumprog_eval (fn : string) (args : string list) : string =
   match fn, args with
-  | "ENUMPROG", [ _set; _file; spec; var; info; full ] ->
+  | "ENUMFILE", [ set; file; spec ] ->
     let d = dfile_of_string spec in
+    Hashtbl.replace file_tbl (set, file) d;
+    law "declared_names_unique" (nodup (edeclared d));
+    law "paths_cover_enums" (List.map fst (file_epaths d) = all_enums d);
+    List.iter (fun (e, p) -> law "enum_raw_path" (resolve_path d p = Some e)) (file_epaths d);
+    "ok"
+  | "ENUMPROG", [ set; file; var; info; full ] ->
+    let d = file_of set file in
     let inf = info_of_string info in
     let f = { ef_desc = d; ef_var = nm_of var; ef_infos = [ inf ] } in
     let n = nm_of full in
-    law "declared_names_unique" (nodup (edeclared d));
     law "info_is_of_enum" (inf.ei_full = n);
-    law "paths_cover_enums" (List.map fst (file_epaths d) = all_enums d);
-    List.iter (fun (e, p) -> law "enum_raw_path" (resolve_path d p = Some e)) (file_epaths d);
     law "enum_law_holds" (enum_law f n);
     (match canon_enum f n with
      | Some p ->
@@ -86,18 +94,17 @@ let enumprog_eval (fn : string) (args : string list) : string =
          (z_of_int 2147483647 :: z_of_int (-2147483648) :: List.map (fun v -> v.ev_num) inf.ei_values);
        prog_s p
      | None -> "none")
-  | "ENUMMSG", [ _set; _file; spec; var; full ] ->
-    let d = dfile_of_string spec in
+  | "ENUMMSG", [ set; file; var; full ] ->
+    let d = file_of set file in
     let f = { ef_desc = d; ef_var = nm_of var; ef_infos = [] } in
-    law "declared_names_unique" (nodup (edeclared d));
     (match canon_msg f (nm_of full) with
      | Some (MPIdx (v, s, r) as m) ->
        law "eprog_eqb_correct" (emprog_eqb m m);
        law "message_index_bound" (int_of_n s < int_of_n (msg_table_len d));
        "(msg " ^ nm_s v ^ " " ^ dec_of_n s ^ " " ^ dec_of_n r ^ ")"
      | None -> "none")
-  | "ENUMTABLES", [ _set; _file; spec ] ->
-    let d = dfile_of_string spec in
+  | "ENUMTABLES", [ set; file ] ->
+    let d = file_of set file in
     dec_of_n (enum_table_len d) ^ " " ^ dec_of_n (msg_table_len d)
   | _ -> raise Not_found
 
